@@ -1,0 +1,41 @@
+//go:build verif
+
+package eddsa
+
+// Machine-checked contracts for this package (read by /verif/govc; comment-only, compiled only
+// with -tags verif). See /verif/DESIGN.md.
+//
+// SLIP-0010 for ed25519: the private key is the 32-byte I_L itself (every value is valid, so neither
+// the master-key loop nor the child loop ever retries), the serialised public key is 0x00 || A, and
+// a public key cannot be shifted.
+
+//@ props C02
+
+//@ func (c ed25519Curve) NewPrivateKey(buf []byte) (r slip10.Key, err error)
+//@   panics  when len(buf) != 32
+//@   ensures isnil(err) && typeis(r, Seed) && len(r.(Seed)) == 32 && forall(j, 0, 32, r.(Seed)[j] == buf[j])
+
+//@ func (s Seed) Bytes() (r []byte)
+//@   panics  never
+//@   ensures len(r) == len(s) && forall(j, 0, len(s), r[j] == s[j])
+
+//@ func (s Seed) IsPrivate() (r bool)
+//@   panics  never
+//@   ensures r
+
+//@ func (s Seed) Shift(buf []byte) (r slip10.Key, err error)
+//@   panics  when len(buf) != 32
+//@   ensures isnil(err) && typeis(r, Seed) && len(r.(Seed)) == 32 && forall(j, 0, 32, r.(Seed)[j] == buf[j])
+
+//@ func (p PublicKey) Bytes() (r []byte)
+//@   requires len(p) == 32
+//@   panics  never
+//@   ensures len(r) == 33 && r[0] == 0 && forall(j, 0, 32, r[j+1] == p[j])
+
+//@ func (p PublicKey) IsPrivate() (r bool)
+//@   panics  never
+//@   ensures !r
+
+//@ func (p PublicKey) Shift(b []byte) (r slip10.Key, err error)
+//@   panics  never
+//@   ensures isnil(r) && is(err, ErrNotHardened)
